@@ -1,3 +1,3 @@
 #!/bin/bash
-# runs the repository's own suite (guard off) and prints a one-line summary; exit 0 iff all passed
-cd /repo && cargo test --workspace --no-fail-fast --offline 2>&1 | awk '/^test result/ {p+=$4; f+=$6} /FAILED|panicked/ {print} END {print "passed=" p " failed=" f; exit (f>0)}'
+# runs the repository's own suite (guard off) and prints a one-line summary; exit 0 iff it built and all passed
+cd /repo && cargo test --workspace --no-fail-fast --offline 2>&1 | awk '/^test result/ {p+=$4; f+=$6} /FAILED|panicked|^error/ {print; if ($0 ~ /^error/) e=1} END {print "passed=" p+0 " failed=" f+0 (e ? " build-error" : ""); exit (f>0 || e || p==0)}'
